@@ -51,7 +51,7 @@ func (c *client) Broadcast(ctx context.Context, msgID string, msg proto.Message)
 		return errors.Wrap(err, "new any")
 	}
 
-	hash, err := c.hashFunc(msgID, anyMsg)
+	hash, err := c.hashFunc(c.p2pNode.ID(), msgID, anyMsg)
 	if err != nil {
 		return errors.Wrap(err, "hash any")
 	}
@@ -116,7 +116,7 @@ func (c *client) Broadcast(ctx context.Context, msgID string, msg proto.Message)
 
 	// Verify
 
-	if err := c.verifyFunc(msgID, anyMsg, sigs); err != nil {
+	if err := c.verifyFunc(c.p2pNode.ID(), msgID, anyMsg, sigs); err != nil {
 		return errors.Wrap(err, "verify signatures")
 	}
 
